@@ -110,6 +110,14 @@ def int_strings(ty, r, rng, scale=1):
             b2 = bytearray(base.encode())
             b2[min(pos, n - 1)] = j
             out.append(bytes(b2))
+    # every byte value as a single character and inside a digit string (classification of all 256 bytes)
+    if ty in ("u32", "i64", "u8"):
+        base = ("1" + DIGITS[r - 1]).encode()
+        for c in range(256):
+            out.append(bytes([c]))
+            out.append(base + bytes([c]))
+            if ty == "i64" or c % 3 == 0:
+                out.append(base * 4 + bytes([c]) + base)
     # lengths around overflow_digits
     lo, hi = int_range(ty)
     maxlen = len(to_radix(hi, r))
